@@ -31,6 +31,11 @@ def run_case(ctx, f, batch0, keys, fail, same_a=False):
     ev.attrs["watchers"] = {}
     ev2.attrs["watchers"] = {}
     known = {"a": pa, "b": pb, "e": ev, "e2": ev2}
+    # the class-level Parameter objects (what objects('existing') shows for an instance that has no copies of its own yet);
+    # `self_[name]` hands out the instance's own copies above
+    ev_cls = Obj("class_level_event_param", _autotrigger_value=True, _autotrigger_reset_value=False, _mode="set-reset", watchers={})
+    cls_level = {"a": Obj("class_level_param_a", watchers={}), "b": Obj("class_level_param_b", watchers={}), "e": ev_cls,
+                 "e2": Obj("class_level_other_event", _autotrigger_value=True, _autotrigger_reset_value=False, _mode="set-reset", watchers={})}
     prev = {"a": Obj("old_a"), "b": Obj("old_b"), "e": False, "e2": False}
     given = dict((k, Obj("new_" + k) if k != "e" else True) for k in keys)
     if same_a and "a" in given:
@@ -39,6 +44,7 @@ def run_case(ctx, f, batch0, keys, fail, same_a=False):
         given = dict((("zzz" if k == fail[1] else k), v) for k, v in given.items())
     target = Obj("target")
     trace = []
+    shared_mode = []
     ns = Obj("ns", _BATCH_WATCH=batch0, _TRIGGER=False, self_or_cls=target, cls=Obj("Cls", __name__="Cls"),
              __getitem__=dict(known), __contains__=list(known), __iter__=list(known))
     # the instance route: the namespace of an instance nobody watches
@@ -50,8 +56,12 @@ def run_case(ctx, f, batch0, keys, fail, same_a=False):
             return isinstance(args[0], Obj) and args[1] in args[0].attrs
         if fn == "self_.values":
             return dict(prev)
+        if fn == "self_.objects":
+            return dict(cls_level)
         if fn == "setattr" and len(args) == 3:
-            trace.append(("set", args[1], "flag=%s" % ns.attrs["_BATCH_WATCH"], "mode=%s" % ev.attrs["_mode"], "mode2=%s" % ev2.attrs["_mode"]))
+            if ev_cls.attrs["_mode"] != "set-reset":
+                shared_mode.append(ev_cls.attrs["_mode"])
+            trace.append(("set", args[1], "flag=%s" % ns.attrs["_BATCH_WATCH"], "mode=%s" % (ev.attrs["_mode"] if ev_cls.attrs["_mode"] == "set-reset" else ev_cls.attrs["_mode"]), "mode2=%s" % ev2.attrs["_mode"]))
             if fail and fail[0] == "reject" and args[1] == fail[1] and args[2] is not False:
                 raise _Raise("ValueError")
             return None
@@ -67,6 +77,11 @@ def run_case(ctx, f, batch0, keys, fail, same_a=False):
     if len(outs) != 1 or outs[0].imprecise:
         raise AnalysisError("update model: Parameters._update is not interpretable precisely (%s)" % (outs[0].notes[:2] if outs else "no outcome"))
     ns.attrs["_other_event"] = ev2
+    ns.attrs["_shared_mode"] = shared_mode
+    if ev_cls.attrs["_mode"] == "set-reset" and not shared_mode:
+        pass
+    elif ev.attrs["_mode"] == "set-reset" and ev_cls.attrs["_mode"] != "set-reset":
+        ev.attrs["_mode"] = ev_cls.attrs["_mode"]        # report what was left behind on whichever object was switched
     return outs[0], trace, ns, ev, prev, given
 
 
@@ -108,7 +123,7 @@ def cow_case(ctx, f, keys, fail):
 
 def update_model(ctx):
     f = ctx.repo.func(P + "Parameters._update")
-    problems = {"C04": [], "C05": [], "C02": [], "C03": [], "C01": [], "C09": [], "C10": [], "C08": []}
+    problems = {"C04": [], "C05": [], "C02": [], "C03": [], "C01": [], "C09": [], "C10": [], "C08": [], "C12": []}
     n = 0
     orders = [["a"], ["a", "b"], ["a", "e"], ["e", "a"], ["a", "e", "b"], ["b", "a", "e"]]
     for batch0 in (False, True):
@@ -123,6 +138,10 @@ def update_model(ctx):
                 desc = "batching=%s, update(%s)%s%s" % (batch0, ", ".join(keys), " where a is given the value it already holds" if same_a else "", "" if not fail else " with `%s` %s" % (fail[1], "rejected" if fail[0] == "reject" else "not a parameter"))
                 flushes = [t for t in trace if t[0] == "flush"]
                 sets = [t for t in trace if t[0] == "set"]
+                if ns.attrs.get("_shared_mode"):
+                    problems["C12"].append("%s (instance route): while the instance's keys are being assigned, the transient mode %r sits on the CLASS-level Event Parameter (looked up among the "
+                                           "existing objects instead of through the instance's own `self_[name]`): a per-instance copy another instance makes in that window -- a watcher of "
+                                           "this update assigning the same Event there -- inherits the mode for good; its Event never resets" % (desc, ns.attrs["_shared_mode"][0]))
                 # flag restored
                 if ns.attrs["_BATCH_WATCH"] is not batch0:
                     problems["C05"].append("%s: the batching flag is %s on exit, it was %s on entry" % (desc, ns.attrs["_BATCH_WATCH"], batch0))
